@@ -25,6 +25,7 @@ type Config struct {
 	Trace        bool
 	Thorough     bool
 	CrossSolver  string
+	CrossBudget  int
 }
 
 type HarnessResult struct {
@@ -89,7 +90,7 @@ func (ex *Explorer) crossBudget() bool {
 	ex.mu.Lock()
 	defer ex.mu.Unlock()
 	ex.crossUsed++
-	return ex.crossUsed <= 400
+	return ex.crossUsed <= ex.cfg.CrossBudget
 }
 
 func (ex *Explorer) noteCross(r Result) {
